@@ -520,12 +520,20 @@ func (pool *TxPool) demoteUnexecutables() {
 			logging.Trace("Demoting pending transaction", "hash", hash)
 			pool.enqueueTx(hash, tx)
 		}
-		// If there's a gap in front, alert (should never happen) and postpone all transactions
-		if list.Len() > 0 && list.txs.Get(nonce) == nil {
-			for _, tx := range list.Cap(0) {
-				hash := tx.Hash()
-				logging.Error("Demoting invalidated transaction", "hash", hash)
-				pool.enqueueTx(hash, tx)
+		// If there's a gap anywhere (in front, or behind re-injected transactions after a
+		// reorg lowered the account nonce), postpone every transaction behind the gap
+		if list.Len() > 0 {
+			next := nonce
+			for list.txs.Get(next) != nil {
+				next++
+			}
+			if uint64(list.Len()) > next-nonce {
+				gapped := list.txs.Filter(func(tx *types.Transaction) bool { return tx.Nonce() > next })
+				for _, tx := range gapped {
+					hash := tx.Hash()
+					logging.Error("Demoting invalidated transaction", "hash", hash)
+					pool.enqueueTx(hash, tx)
+				}
 			}
 		}
 		if list.Empty() {
